@@ -79,4 +79,9 @@ CHECKS = {
   "note": "trace bound: ping + pong + 6 x resend timeout at the end of the run + 2.5 s; the model's time unit is abstract",
   "technique": "TLA+ timed model checking (TLC) + trace validation by a timed observer specification",
  },
+ "C06": {
+  "text": "Liveness is model-checked on GBN.tla (LiveSpec: weak/strong fairness of loops, application and resend timer, finitely many faults): every message is eventually delivered for good and the windows drain; the timed model KeepAlive.tla checks NoSilentStall for resend timeouts below and above the peer's keepalive cadence; real connections run through seeded random fault prefixes followed by a reliable link, and through tail-loss scenarios with the peer's keepalive running (static timeouts 1-8 s, adaptive timeouts over 20-800 ms links); a timed observer specification checks bounded delivery, no unprovoked closure (none at all with keepalive off) and quiescence on every trace.",
+  "note": "trace bound 25 x base resend timeout + 15 s; liveness model-checked for small windows/message counts; with keepalive on a closure during the fault prefix counts as visible failure",
+  "technique": "TLA+ liveness and timed model checking (TLC) + trace validation by a timed observer specification",
+ },
 }
